@@ -10,11 +10,9 @@ namespace Canvas.C17
 section field
 variable {K : Type} [Field K] [LinearOrder K] [IsStrictOrderedRing K]
 
-/-- item-wise well-formedness: non-negative widths, glue with `0 ≤ shrink ≤ width` and `0 ≤ stretch`,
-penalties without width -/
+/-- item-wise well-formedness: non-negative widths, glue with `0 ≤ shrink ≤ width` and `0 ≤ stretch` -/
 def ItemsOK (items : List (Item K)) : Prop :=
-  ∀ it, it ∈ items → 0 ≤ it.width ∧ (it.ty = Ty.glue → 0 ≤ it.shrink ∧ it.shrink ≤ it.width ∧ 0 ≤ it.stretch) ∧
-    (it.ty = Ty.penalty → it.width = 0)
+  ∀ it, it ∈ items → 0 ≤ it.width ∧ (it.ty = Ty.glue → 0 ≤ it.shrink ∧ it.shrink ≤ it.width ∧ 0 ≤ it.stretch)
 
 theorem k0 : (k 0 : K) = 0 := by simp [k]
 theorem k1 : (k 1 : K) = 1 := by simp [k]
@@ -32,7 +30,7 @@ theorem pre_step (items : List (Item K)) (h : ItemsOK items) (b : Nat) :
     rw [this]; exact ⟨le_refl _, le_refl _, le_refl _, le_refl _⟩
   | some it =>
     rw [pre_succ items b it hb]
-    obtain ⟨hw, hg, _⟩ := h it (List.mem_of_getElem? hb)
+    obtain ⟨hw, hg⟩ := h it (List.mem_of_getElem? hb)
     cases hty : it.ty with
     | box => simp only [addItem, hty]; refine ⟨by linarith, le_refl _, le_refl _, by linarith⟩
     | glue =>
@@ -55,14 +53,6 @@ theorem pre_mono (items : List (Item K)) (h : ItemsOK items) (b : Nat) : ∀ d :
 /-- the node would be deactivated: ratio −∞ or below −1 -/
 def TooLong (o : Option K) : Prop := o = none ∨ ∃ r, o = some r ∧ r < -(k 1 : K)
 
-theorem tooLong_iff_deact (cx : Ctx K) (o : Option K) (hnf : isForced cx.P cx.it = false) :
-    deactivates cx o = true ↔ TooLong o := by
-  unfold deactivates TooLong
-  rw [hnf, Bool.or_false]
-  cases o with
-  | none => simp
-  | some r => simp
-
 /-- too long at this break means: the least length of the line exceeds the line width -/
 theorem tooLong_imp (P : Params K) (lineW : K) (it : Item K) (W Y Z aw ay az : K)
     (hpen : it.ty = Ty.penalty → it.width = 0) (hY : ay ≤ Y) (hZ : az ≤ Z) (hinf : 0 < P.infinity)
@@ -79,7 +69,7 @@ theorem tooLong_imp (P : Params K) (lineW : K) (it : Item K) (W Y Z aw ay az : K
   by_cases h1 : W - aw < lineW
   · exfalso
     rw [if_pos h1] at h
-    by_cases hy0 : Y - ay = 0
+    by_cases hy0 : Y - ay ≤ 0
     · rw [if_pos hy0] at h
       rcases h with h | ⟨r, h, hr⟩
       · cases h
@@ -88,7 +78,7 @@ theorem tooLong_imp (P : Params K) (lineW : K) (it : Item K) (W Y Z aw ay az : K
         have : 0 < P.infinity * (1 + (lineW - (W - aw)) / lineW) := mul_pos hinf (by linarith)
         rw [e] at this; linarith
     · rw [if_neg hy0] at h
-      have hyp : 0 < Y - ay := lt_of_le_of_ne (by linarith) (Ne.symm hy0)
+      have hyp : 0 < Y - ay := not_le.mp hy0
       have hpos : 0 < (lineW - (W - aw)) / (Y - ay) := div_pos (by linarith) hyp
       rcases h with h | ⟨r, h, hr⟩
       · cases h
@@ -117,26 +107,53 @@ theorem tooLong_imp (P : Params K) (lineW : K) (it : Item K) (W Y Z aw ay az : K
         rw [if_pos hinf] at e
         rw [← e] at hr; linarith
 
-/-- conversely, a line whose least length exceeds the line width is too long -/
+/-- conversely, a line whose least length (without the width of a penalty broken at) exceeds the
+line width is too long -/
 theorem tooLong_of (P : Params K) (lineW : K) (it : Item K) (W Y Z aw ay az : K)
-    (hpen : it.ty = Ty.penalty → it.width = 0) (hZ : az ≤ Z) (hinf : 0 < P.infinity)
+    (hw : 0 ≤ it.width) (hZ : az ≤ Z) (hinf : 0 < P.infinity)
     (h : lineW < (W - aw) - (Z - az)) : TooLong (adjRatio P lineW it W Y Z aw ay az) := by
-  have hL : (if it.ty = Ty.penalty then W - aw + it.width else W - aw) = W - aw := by
+  have hL : W - aw ≤ (if it.ty = Ty.penalty then W - aw + it.width else W - aw) := by
     split
-    · rename_i hp; rw [hpen hp]; ring
-    · rfl
+    · linarith
+    · exact le_refl _
   unfold adjRatio TooLong
-  simp only [hL, k0, k1, beq_iff_eq]
-  have h2 : lineW < W - aw := by linarith
+  simp only [k0, k1, beq_iff_eq]
+  generalize (if it.ty = Ty.penalty then W - aw + it.width else W - aw) = L at hL
+  have h2 : lineW < L := by linarith
   rw [if_neg (by linarith), if_pos h2]
   by_cases hz0 : Z - az = 0
   · rw [if_pos hz0]; exact Or.inl rfl
   · rw [if_neg hz0]
     have hzp : 0 < Z - az := lt_of_le_of_ne (by linarith) (Ne.symm hz0)
-    have hlt : (lineW - (W - aw)) / (Z - az) < -1 := by
+    have hlt : (lineW - L) / (Z - az) < -1 := by
       rw [div_lt_iff₀ hzp]; linarith
     right
     exact ⟨_, by rw [if_pos (by linarith)], hlt⟩
+
+/-- a node that `mainLoop` deactivates at a break that is not forced has a line whose least length
+(without the width of the penalty) exceeds the line width -/
+theorem deact_imp (cx : Ctx K) (a : Node K) (hnf : isForced cx.P cx.it = false)
+    (hY : a.d.y ≤ cx.Y) (hZ : a.d.z ≤ cx.Z) (hinf : 0 < cx.P.infinity) (hW : 0 < cx.lineW)
+    (h : deactivates cx a (adjRatio cx.P cx.lineW cx.it cx.W cx.Y cx.Z a.d.w a.d.y a.d.z) = true) :
+    cx.lineW < (cx.W - a.d.w) - (cx.Z - a.d.z) := by
+  unfold deactivates at h
+  rw [hnf, Bool.or_false] at h
+  by_cases hp : (cx.it.ty = Ty.penalty && !(cx.it.width == k 0)) = true
+  · rw [if_pos hp] at h
+    simpa using h
+  · rw [if_neg hp] at h
+    have hpen : cx.it.ty = Ty.penalty → cx.it.width = 0 := by
+      intro ht
+      simp only [ht, decide_true, Bool.true_and, Bool.not_eq_true', Bool.not_eq_false, bne_iff_ne, ne_eq,
+        Bool.not_eq_true, beq_eq_false_iff_ne, not_not, k0, beq_iff_eq] at hp
+      simpa using hp
+    apply tooLong_imp cx.P cx.lineW cx.it cx.W cx.Y cx.Z a.d.w a.d.y a.d.z hpen hY hZ hinf hW
+    unfold TooLong
+    cases hr : adjRatio cx.P cx.lineW cx.it cx.W cx.Y cx.Z a.d.w a.d.y a.d.z with
+    | none => exact Or.inl rfl
+    | some r =>
+      rw [hr] at h
+      exact Or.inr ⟨r, rfl, by simpa using h⟩
 
 end field
 end Canvas.C17
